@@ -4,5 +4,7 @@ Set Printing Width 160.
 Set Printing Depth 1000.
 Check @parse_complete.
 Check @option_is_recognised.
+Check @print_parse_roundtrip.
 Print Assumptions parse_complete.
 Print Assumptions option_is_recognised.
+Print Assumptions print_parse_roundtrip.
